@@ -47,8 +47,13 @@ type corpusT struct {
 
 // builtCorpus wraps a database that was not produced by the YAML loader
 func builtCorpus(name string, mk func() *database.Database) *corpusT {
+	return builtCorpus2(name, mk, mk)
+}
+
+// builtCorpus2: the long-lived database is made by mk (which may give it a history), copies for comparison by fresh
+func builtCorpus2(name string, mk, fresh func() *database.Database) *corpusT {
 	c := wrapCorpus(name, mk(), nil, "")
-	c.fresh = mk
+	c.fresh = fresh
 	return c
 }
 
@@ -382,8 +387,47 @@ func getCorpus(name string) *corpusT {
 		c = builtCorpus("lit", func() *database.Database { return &database.Database{Commands: mixCommands()} })
 	case "updated": // commands installed at run time through the caching layer
 		c = builtCorpus("updated", func() *database.Database {
-			db := &database.Database{Commands: mixCommands()[:1]}
+			db := &database.Database{Commands: mixCommands()[:30]}
+			db.SearchUniversal("frobnicte", database.SearchOptions{Limit: 5, UseFuzzy: true, AllPlatforms: true})
+			db.SearchUniversal("frobnicate widget", database.SearchOptions{Limit: 5, UseNLP: true, AllPlatforms: true})
 			database.VerifNewCachedDatabase(db, 10, 0).UpdateDatabase(mixCommands())
+			return db
+		})
+	case "grown": // searched (lexically, with NLP, through the typo fallback), then grown by appending, as a long-running caller may
+		all := func() []database.Command { return append(mixCommands(), uniqCommands()...) }
+		c = builtCorpus2("grown", func() *database.Database {
+			f := filepath.Join(tmpDir(), "grown-part.yml")
+			b, _ := yaml.Marshal(all()[:40])
+			os.WriteFile(f, b, 0o644)
+			db, err := database.LoadDatabase(f)
+			if err != nil {
+				fatal("grown corpus: %v", err)
+			}
+			for _, q := range []string{"frobnicate widget", "frobnicte", "blrptak", "delete item"} {
+				db.SearchUniversal(q, database.SearchOptions{Limit: 5, UseFuzzy: true, UseNLP: q == "delete item", AllPlatforms: true})
+			}
+			// (the appended entries come from the loader too, so their derived fields are filled like everybody's)
+			fr := filepath.Join(tmpDir(), "grown-rest.yml")
+			br, _ := yaml.Marshal(all()[40:])
+			os.WriteFile(fr, br, 0o644)
+			dbr, err := database.LoadDatabase(fr)
+			if err != nil {
+				fatal("grown corpus: %v", err)
+			}
+			rest := dbr.Commands
+			db.Commands = append(db.Commands, rest[:len(rest)/2]...)
+			db.SearchUniversal("frobnicte", database.SearchOptions{Limit: 5, UseFuzzy: true, AllPlatforms: true})
+			db.SearchUniversal("frobnicate", database.SearchOptions{Limit: 5, AllPlatforms: true})
+			db.Commands = append(db.Commands, rest[len(rest)/2:]...)
+			return db
+		}, func() *database.Database {
+			f := filepath.Join(tmpDir(), "grown-all.yml")
+			b, _ := yaml.Marshal(all())
+			os.WriteFile(f, b, 0o644)
+			db, err := database.LoadDatabase(f)
+			if err != nil {
+				fatal("grown corpus: %v", err)
+			}
 			return db
 		})
 	case "fallback": // the built-in database the loader falls back to when no file loads
@@ -955,8 +999,14 @@ func parseJSONBlock(out string) ([]cliItem, bool) {
 	return items, true
 }
 
+var cliRuns int
+
 func runCLI(c *corpusT, s scenario, q string) (out runOut) {
 	args := []string{"search", "--database", c.file, "--limit", fmt.Sprint(s.Limit), "--format", "json", "-v"}
+	cliRuns++
+	if cliRuns%2 == 0 { // both ways of starting a search: `wtf search <flags> q` and plain `wtf <flags> q`
+		args = args[1:]
+	}
 	if s.AllPlat {
 		args = append(args, "--all-platforms")
 	}
